@@ -15,10 +15,10 @@ CLAIMED = {
             "deterministic enforcement only: accepted => the remainder is the committed one; accepted <=> (remainder within the degree bound and agreeing with the last folded evaluations at every queried position) for a prover that commits to another remainder; accepted => claimed evaluations equal the committed layer values; accepted => every queried cell of every layer equals the folding of the previous layer -- for all values of the symbolic component on each enumerated parameter set",
             K_NOTE + "; F_257 / PairHash128 / CtrCoin instantiation; probabilistic soundness (far-from-low-degree functions are rejected with high probability) is outside any solver's reach and NOT claimed; parameter sets enumerated in vf/gen/c05.py", "DESIGN.md §2 C05"),
     "C06": ("kani", "bounded model checking (Kani/CBMC) of the real deserializers and second-stage parsers over symbolic byte buffers",
-            "every byte string up to the stated buffer bound (first stage) and every payload for each enumerated length/count layout (second stage) is decided against Kani's panic/overflow/bounds checks",
+            "every byte string up to the stated buffer bound (first stage) and every payload for each enumerated length/count layout (second stage) is decided against Kani's panic/overflow/bounds checks; the entry of verify() on untrusted proof fields (claimed field modulus of 1/2/4/9 arbitrary bytes through the real verify() with a toy AIR, the num_unique_queries byte through Queries::parse, leaf counts that differ from the position count) returns errors",
             K_NOTE + "; hashers inside parsers replaced by a harness mixer; verify() past channel construction outside the claim", "DESIGN.md §2 C06"),
     "C07": ("mir-smt+kani", "symbolic execution of the rustc MIR of the field kernels into SMT (bit-vector and integer encodings), decided by a z3/cvc5 portfolio; Kani for loop termination on zero representations",
-            "full-width (no value-range reduction) functional correctness of the loop-free 62/64/128-bit field operations, conversions and constants modulo the prime, and absence of arithmetic panics; counterexamples are lifted to the public API and replayed natively",
+            "full-width (no value-range reduction) functional correctness of the loop-free 62/64/128-bit field operations, conversions and constants modulo the prime, and absence of arithmetic panics; counterexamples are lifted to the public API and replayed natively; exponentiation corner cases (bases 0 and 1, every exponent) on the real fields and the trait's default exp/exp_vartime at F_257 (exponents < 32)",
             "rustc MIR dump, own translator (validated per run against native execution), z3 4.8/5.1, cvc5 1.0; Fermat/primality trusted; data-dependent loops (f62/f128 inv beyond zero, exp) outside", "DESIGN.md §2 C07"),
     "C08": ("mir-smt+kani", "MIR -> SMT with ring abstraction: extension-field formulas checked as polynomial identities over the integers; bounded model checking (Kani/CBMC) of the generic Quad/CubeExtension inv/conjugate/div/slice code at F_257 on symbolic slices",
             "mul/square/mul_base/frobenius and the generic Quad/Cube wrappers equal schoolbook arithmetic modulo the documented irreducible for all operands, as integer identities (hold in every commutative ring)",
@@ -30,13 +30,13 @@ CLAIMED = {
             "for trees of 4/8(/16) leaves and enumerated position lists and opening shapes, for all symbolic digests: honest openings verify and decompress; an accepted opening claims exactly the committed leaves and has the honest shape",
             K_NOTE + "; PairHash (free-algebra model of a collision-resistant hash) inside its width budget; std BTreeMap replaced by a sorted-Vec map under cfg(winterfell_verif); symbolic positions outside", "DESIGN.md §2 C10"),
     "C11": ("mir-smt+kani", "MIR -> SMT for the MDS kernels (all 2^(32*12) limb states, integer encoding); bounded model checking (Kani/CBMC) of the sponge byte/element encoding with the permutation stubbed by a transparent recorder",
-            "frequency-domain MDS multiplication (12x12, 8x8) has no intermediate overflow and equals the circulant matrix product for every state; byte hashing of Rp64_256 / Rp62_248 / RpJive64_256 is total for every length up to the bound and (Rp64_256, RpJive64_256) injective on the sequence of absorbed states (length and trailing zeros distinguished); merge == hash_elements of the concatenation; merge_with_int injective in the integer over all 64-bit values",
+            "frequency-domain MDS multiplication (12x12, 8x8) has no intermediate overflow and equals the circulant matrix product for every state; byte hashing of Rp64_256 / Rp62_248 / RpJive64_256 is total for every length up to the bound and (Rp64_256, RpJive64_256) injective on the sequence of absorbed states (length and trailing zeros distinguished); merge == hash_elements of the concatenation; merge_with_int injective in the integer over all 64-bit values (all three hashers); hash_elements presents the same sponge states for the same residues typed as base, quadratic or cubic elements (Rp64_256, RpJive64_256)",
             "Engine M: rustc MIR dump, own translator, z3/cvc5; Engine K: " + K_NOTE + "; the Rescue permutation itself (S-box chains, rounds) against a reference, Blake3/SHA3 (external crates) and their wrappers are outside; BaseElement::new stubbed by the identity embedding of v mod M in the encoding harnesses", "DESIGN.md §2 C11"),
     "C12": ("kani", "bounded model checking (Kani/CBMC) of encode->decode round trips over symbolic constructor arguments",
-            "for every value the public constructors accept (arguments symbolic under the documented preconditions) decode(encode(x)) == x and the reader is exhausted; collection sizes enumerated and small",
+            "for every value the public constructors accept (arguments symbolic under the documented preconditions) decode(encode(x)) == x and the reader is exhausted; collection sizes enumerated and small; FRI proofs with remainders of 6/10/12 arbitrary bytes decode and re-encode to the same bytes; the streaming byte source is covered by the C13 compaction members",
             K_NOTE + "; field-element encodings (Montgomery maps) decided under C07", "DESIGN.md §2 C12"),
     "C13": ("kani", "bounded model checking (Kani/CBMC): differential harness ReadAdapter vs SliceReader, operation sequences and chunkings enumerated, stream contents symbolic",
-            "for each enumerated (operation sequence, stream length, chunk size) and every stream content the streaming reader returns exactly what the slice reader returns and is never pessimistic in check_eor",
+            "for each enumerated (operation sequence, stream length, chunk size) and every stream content the streaming reader returns exactly what the slice reader returns and is never pessimistic in check_eor; eight sequences of long read_slice calls that trigger the adapter's storage compaction, compared at a symbolic index",
             K_NOTE + "; sequences longer than 4 operations, streams other than the enumerated lengths (0..9, 257..260 bytes), io errors other than short reads outside", "DESIGN.md §2 C13"),
     "C15": ("kani", "bounded model checking (Kani/CBMC) at F_257: folding identity on symbolic slices, position folding / layout / layer count over fully symbolic integers",
             "apply_drp equals the coefficient-domain definition for every challenge (resp. every value of one coefficient) on the enumerated domains; fold_positions, map_positions_to_indexes and num_fri_layers equal their reference for all arguments in range; FriVerifier::new accepts exactly the layer counts whose degree bookkeeping is consistent, for all degree bounds 2^k-1, blowups and remainder sizes; FriProofLayer::parse accepts exactly whole numbers of queries of base/quadratic/cubic elements and recomputes the leaves; honest toy proofs of the real prover are accepted by the real verifier (concrete instances)",
@@ -45,13 +45,13 @@ CLAIMED = {
             "transition divisor vanishes exactly on non-exempt steps (exemption count symbolic and, separately, enumerated), assertion divisors exactly on named steps, overlaps_with == step-set intersection, validation rules -- for every well-formed assertion (pair) at trace lengths 8 and 16; every periodic/sequence assertion the constructors return (arguments over the full usize range) is well-formed, i.e. ill-formed ones are refused",
             K_NOTE + "; toy field; trace lengths > 16 (32 thorough); BoundaryConstraint value polynomials outside", "DESIGN.md §2 C16"),
     "C18": ("kani", "bounded model checking (Kani/CBMC) of the integer security estimate and the acceptance policy over the whole parameter space",
-            "conjectured level == documented formula, monotone, never underflows; validate refuses exactly below the minimum / outside the option set -- for all queries, blowups, grinding factors, extensions, trace lengths, 3 fields x collision resistances",
+            "conjectured level == documented formula, monotone, never underflows (also for a proof claiming an arbitrary 1-2 byte field modulus); validate refuses exactly below the minimum / outside the option set -- for all queries, blowups, grinding factors, extensions, trace lengths, 3 fields x collision resistances; MinProvenSecurity consults the proven estimate (stubbed by a constant), MinConjecturedSecurity the conjectured one",
             K_NOTE + "; the proven estimate (f64 log2/powf/sqrt) cannot be decided by CBMC and is outside", "DESIGN.md §2 C18"),
     "C19": ("kani", "bounded model checking (Kani/CBMC): DefaultRandomCoin over a transparent hasher against a reference coin, symbolic seeds/reseed data/nonces",
-            "for each enumerated history (<= 6 operations) outputs equal a function of the whole history for every symbolic seed, digest and nonce; integer draws are full-width, in range and of the requested count; drawn elements are canonical",
+            "for each enumerated history (<= 6 operations) outputs equal a function of the whole history for every symbolic seed, digest and nonce, including a history in which every draw meets a rejected candidate first; integer draws are full-width, in range and of the requested count (counts <= 3); drawn elements are canonical; merge_with_int of the three Rescue hashers is injective in the nonce over all 64-bit values",
             K_NOTE + "; real hashers inside the coin and rejection loops beyond 3 candidates outside", "DESIGN.md §2 C19"),
     "C20": ("kani", "bounded model checking (Kani/CBMC) at F_257 on symbolic slices against schoolbook references",
-            "add/sub/mul/div/syn_div/eval/interpolate/poly_from_roots/degree/power series/mul_acc/batch_inversion satisfy their defining identities for all values of the symbolic operands at the enumerated sizes",
+            "add/sub/mul/div/syn_div (with and without remainder, dividends shorter than twice the divisor degree)/eval/interpolate/poly_from_roots/degree/power series/mul_acc/batch_inversion satisfy their defining identities for all values of the symbolic operands at the enumerated sizes",
             K_NOTE + "; toy field; lengths around the 1024 batching threshold outside", "DESIGN.md §2 C20"),
 }
 NOT_APPLICABLE = {
